@@ -37,6 +37,10 @@ func valsetConfig(t *rapid.T) sim.Config {
 		}
 	}
 	cfg.Assets[0].Decimals = []uint32{0, 6}[uniform(t, 2, "dec0V")]
+	// a short x/slashing window: validators missing from the commits are slashed and jailed
+	// through the real downtime path and must leave the set at the next epoch end
+	cfg.Slashing = &sim.SlashingCfg{Window: int64(2 + uniform(t, 5, "windowV")), MinSigned: []string{"0.5", "1", "0.25"}[uniform(t, 3, "minSignedV")],
+		JailSeconds: int64([]int{1, 30, 600}[uniform(t, 3, "jailV")]), FractionDowntime: []string{"0", "0.01", "0.5"}[uniform(t, 3, "fractionV")]}
 	return cfg
 }
 
@@ -49,7 +53,7 @@ func init() {
 		ID: "C06",
 		Rule: "rapid histories over consecutive dogfood epochs with many operators, tied and sub-unit powers, a small validator maximum, key replacements, opt-ins/outs and jailing; the eligible top set is recomputed independently at every epoch-closing block and compared with previous set + returned updates (applied with CometBFT's own ValidatorSet code); " +
 			"non-trivial = an update list with an addition, a removal and a power change, or a power tie exactly at the cut; distinct = hash of the (kind, outcome) sequence",
-		Gen:        GenOpts{Weights: w, HostilePct: 2, ExtremePct: 0, Anchor: false, Tempos: []int{15, 40, 70}, CapBits: 40, ClampBits: 50},
+		Gen:        GenOpts{Weights: w, HostilePct: 2, ExtremePct: 0, Anchor: true, Tempos: []int{15, 40, 70}, CapBits: 40, ClampBits: 40, DowntimePct: 18},
 		MinSteps:   30,
 		MaxSteps:   90,
 		Config:     valsetConfig,
@@ -75,7 +79,7 @@ func init() {
 			"non-trivial = at least 2 operators with keys, a replacement of an active key, and an epoch end after it; distinct = hash of the (kind, outcome) sequence",
 		Gen: GenOpts{Weights: map[string]int{
 			"nextBlock": 26, "optIn": 12, "setKey": 16, "optOut": 8, "jail": 3, "unjail": 3, "slash": 4, "delegate": 6, "depositLST": 4, "undelegate": 5,
-		}, HostilePct: 2, ExtremePct: 0, Anchor: true, Tempos: []int{15, 40, 70}, CapBits: 40, ClampBits: 50},
+		}, HostilePct: 2, ExtremePct: 0, Anchor: true, Tempos: []int{15, 40, 70}, CapBits: 40, ClampBits: 40},
 		MinSteps: 30,
 		MaxSteps: 90,
 		Config:   valsetConfig,
